@@ -407,7 +407,7 @@ def make_specs(ctx, rng, full: bool):
     for _ in range(ctx.n(6, 120)):
         add(family="roland", patches=[rng.choice(rol_kinds) for _ in range(rng.randint(1, 3))])
     for kind, ns in (("clean", [0]), ("long-blank-title", [300, 3000, 6000]), ("long-hyphen-title", [300, 3000, 6000]), ("long-dot-title", [300, 3000, 6000]),
-                     ("long-quote-line", [300, 6000]), ("long-blank-line", [300, 6000]), ("many-tracks", [99, 600] + ([3000] if full else [])), ("many-blank", [5000]),
+                     ("long-quote-line", [300, 6000]), ("long-blank-line", [300, 6000]), ("many-tracks", [99, 600, 12000] + ([3000, 20000] if full else [])), ("many-blank", [5000]),
                      ("huge-index", [0]), ("huge-numbers", [5, 50, 400]), ("no-bin", [0]), ("short-bin", [0, 0])):
         for n in ns:
             add(family="cdda", kind=kind, n=n, crlf=rng.random() < 0.3)
@@ -430,7 +430,7 @@ def run(ctx, rep: Report, deep: bool = False):
     rep.rule = (
         "malformed inputs: random byte strings (0 B - 300 KiB; bare, behind an AKAI partition header, behind a Roland ID area incl. sparse 2.9 MB images, as the body of a cue sheet); generated AKAI / Roland / CDDA images with 1-3 corruptions "
         "(SAT/FAT words set to each special value, to in-range links, to 2-cycles / self loops / long cycles outside any file, table noise; partition size, volume entries, directory and header bytes; Roland counts, pointer lists, partial slots, sample records; "
-        "cue lines dropped / duplicated / garbled, kilobyte-long titles and lines, thousands of tracks, huge numbers, missing or short bin); each input: ls at the root and two levels down + export in a forked child under RLIMIT_CPU / RLIMIT_AS; "
+        "cue lines dropped / duplicated / garbled, kilobyte-long titles and lines, up to 12000 (thorough: 20000) tracks of one title (S80: the de-duplication of equal sibling names must stay near-linear), huge numbers, missing or short bin); each input: ls at the root and two levels down + export in a forked child under RLIMIT_CPU / RLIMIT_AS; "
         "oracle: finished (result or error) inside the bounds; model tie: same outcome class and, when both finish normally, same results; distinct = distinct input spec; non-trivial = every input (all are malformed or adversarial by construction)"
     )
     specs = make_specs(ctx, rng, full)
